@@ -4,7 +4,7 @@ import json, glob, os
 V = os.path.dirname(os.path.dirname(os.path.abspath(__file__)))
 rows = []
 st = json.load(open(os.path.join(V, "seeded", "strengthening.json")))
-for d in sorted([x for x in glob.glob(os.path.join(V, "seeded", "*", "")) if "_rejected" not in x]):
+for d in sorted([x for x in glob.glob(os.path.join(V, "seeded", "*", "")) if not os.path.basename(os.path.dirname(x)).startswith("_")]):
     try:
         m = json.load(open(d + "meta.json")); r = json.load(open(d + "result.json"))
     except Exception:
